@@ -4,7 +4,7 @@
 use std::collections::{BTreeMap, BTreeSet};
 use serde_json::{json, Value, Map};
 use crate::vsys::{VFileData, Fs};
-use crate::sha256::{b62, sha256, ticket_of};
+use crate::sha256::{b62, ticket_of};
 
 pub use crate::decode::*;
 
